@@ -26,7 +26,7 @@ inductive Ev
   | popN (n : Nat)                                  -- pop_n_locals(n) at the end of a nested block / switch
   | freeAll                                         -- free_all_local_names()
   | enterLit                                        -- `function (` ... : reallocate_locals? + deactivate + pointer move
-  | leaveLit (d : Nat)                              -- end of a literal whose saved pair lies under d abandoned ones
+  | leaveLit (d : Nat)                              -- end of a literal whose saved block lies under d abandoned ones
   | argTypes (k : Nat)                              -- define_new_function's copy of k argument types
   | cleanup                                         -- clean_up_locals() (epilog and clean_parser)
   | memReq (blk size : Nat) (sync : Option (Nat × Nat))
@@ -38,6 +38,7 @@ inductive Ev
   | lexStart | lexEnd                               -- start_new_file / end_new_file
   | ifPush | ifPop | ifUnwind                       -- #if stack
   | fnPush | fnPop                                  -- push_function_context / pop_function_context
+  | fnFlagSet                                       -- lexer saw `(:` followed by an identifier: function_flag = 1
   deriving Repr, DecidableEq
 
 /-- observable outputs: the trace points (event, cursor after, allocation size) and the end-of-compile reports -/
@@ -55,6 +56,8 @@ inductive Out
 structure Frame where
   c : Nat     -- num_local       = current_number_of_locals
   m : Nat     -- max_num_locals
+  lo : Nat    -- locals_off      = locals_ptr - locals when the literal started
+  to : Nat    -- type_off        = type_of_locals_ptr - type_of_locals when the literal started
   deriving Repr, DecidableEq
 
 structure Loc where
@@ -100,7 +103,7 @@ def stepLoc (l : Loc) (e : Ev) : Loc × List Out :=
     let o1 := if grow then [Out.ev "locals.realloc.type" l.tOff l1.tsize, .ev "locals.realloc.name" l.lOff l1.lsize] else []
     let o2 := o1 ++ [Out.ev "local.deactivate" (l.lOff + l.cur : Nat) l1.lsize]
     if l.lOff + l.cur ≤ l1.lsize then
-      let l2 := { l1 with frames := ⟨l.cur, l.max⟩ :: l.frames, lOff := l.lOff + l.cur, tOff := l.tOff + l.max,
+      let l2 := { l1 with frames := ⟨l.cur, l.max, l.lOff, l.tOff⟩ :: l.frames, lOff := l.lOff + l.cur, tOff := l.tOff + l.max,
                           cur := 0, max := 0 }
       (l2, o2 ++ [Out.ev "literal.enter.type" l2.tOff l2.tsize, .ev "literal.enter.name" l2.lOff l2.lsize])
     else l1.crash o2 "table-write-out-of-bounds deactivate_current_locals"
@@ -108,14 +111,16 @@ def stepLoc (l : Loc) (e : Ev) : Loc × List Out :=
     match l.frames.drop d with
     | [] => (l, [])
     | f :: rest =>
+      -- repaired code: what literals abandoned by error recovery left above this literal's start is released
+      -- (reads locals[f.lo + f.c .. lOff)), then the pointers return to where the literal started
       let o := [Out.ev "literal.leave.saved" f.c f.m]
-      if f.c ≤ l.lOff ∧ f.m ≤ l.tOff then
-        let l' := { l with frames := rest, cur := f.c, max := f.m, lOff := l.lOff - f.c, tOff := l.tOff - f.m }
+      if f.lo + f.c ≤ l.lOff ∧ l.lOff ≤ l.lsize then
+        let l' := { l with frames := rest, cur := f.c, max := f.m, lOff := f.lo, tOff := f.to }
         let o' := o ++ [Out.ev "literal.leave.type" l'.tOff l'.tsize, .ev "literal.leave.name" l'.lOff l'.lsize,
                         .ev "local.reactivate" (l'.lOff + l'.cur : Nat) l'.lsize]
         if l'.lOff + l'.cur ≤ l'.lsize then (l', o')
         else l'.crash o' "table-read-out-of-bounds reactivate_current_locals"
-      else l.crash o "pointer-before-table leave literal"
+      else l.crash o "table-read-out-of-bounds leave literal"
   | .argTypes k =>
     let n := min k l.N
     let o := [Out.ev "local.argtypes" (l.tOff + n : Nat) l.tsize]
@@ -187,7 +192,7 @@ def stepIds (l l' : Loc) (s : Ids) (e : Ev) : Ids × List Out :=
   | .leaveLit d =>
     match l.frames.drop d with
     | [] => (s, [])
-    | _ :: _ => (reactivate (popMany l.cur s) l'.lOff l'.cur, [])
+    | f :: _ => (reactivate (popMany (l.lOff + l.cur - (f.lo + f.c)) s) l'.lOff l'.cur, [])
   | .cleanup => (popMany (l.lOff + l.cur) s, [])
   | .lexEnd =>
     (s, s.perms.map (fun id => Out.identEnd id (s.refs id) (s.lnum id)) ++ [.localsEnd l.cur l.max l.lOff l.tOff])
@@ -237,10 +242,11 @@ structure Lex where
   ifDepth : Nat
   fnCount : Nat        -- last_function_context + 1
   fnRefused : Nat      -- refused_function_contexts
+  fnFlag : Bool        -- function_flag: the next identifier opens a functional
   bad : Bool
   deriving Repr
 
-def Lex.init : Lex := ⟨0, 0, 0, 0, 0, false⟩
+def Lex.init : Lex := ⟨0, 0, 0, 0, 0, false, false⟩
 
 def incLimit : Nat := maxIncludeDepth - 1
 
@@ -260,8 +266,10 @@ def stepLex (s : Lex) (e : Ev) : Lex × List Out :=
       let s' := { s with incnum := s.incnum - 1, incDepth := s.incDepth - 1 }
       (s', [.ev "inc.pop" s'.incDepth incLimit, .ev "inc.num" s'.incnum incLimit])
   | .lexStart =>
-    ({ s with incnum := 0, fnCount := 0, fnRefused := 0 },
-     [.ev "lex.start" s.incDepth incLimit, .ev "lex.start.if" s.ifDepth s.ifDepth])
+    -- repaired code: start_new_file() also clears function_flag
+    ({ s with incnum := 0, fnCount := 0, fnRefused := 0, fnFlag := false },
+     [.ev "lex.start" s.incDepth incLimit, .ev "lex.start.if" s.ifDepth s.ifDepth, .ev "lex.start.fnflag" 0 0])
+  | .fnFlagSet => ({ s with fnFlag := true }, [.ev "fnflag.set" 1 1])
   | .lexEnd =>
     ({ s with incDepth := 0, ifDepth := 0 }, [.ev "lex.end" s.incDepth incLimit, .ev "lex.end.if" s.ifDepth s.ifDepth])
   | .ifPush => let d := s.ifDepth + 1; ({ s with ifDepth := d }, [.ev "if.push" d d])
